@@ -140,10 +140,11 @@ inductive Ev where
   | ske (leaf cr sr body : Bytes)
   /-- session keys derived from (own share, peer share, randoms, EMS flag, transcript) -/
   | keys (pub peerPub cr sr : Bytes) (ems : Bool) (transcript : Bytes) (k : Keys)
-  /-- the peer's Finished verified under `k` for this transcript -/
-  | finished (k : Keys) (transcript : Bytes)
-  /-- own Finished emitted: verify_data computed under `k` over this transcript -/
-  | sentFinished (k : Keys) (transcript : Bytes)
+  /-- the peer's Finished was accepted: `body` is the verify_data that *arrived*, `k` the keys and
+  `transcript` the transcript it was compared against -/
+  | finished (k : Keys) (transcript : Bytes) (body : Bytes)
+  /-- own Finished emitted: `body` is the verify_data put on the wire, computed under `k` over `transcript` -/
+  | sentFinished (k : Keys) (transcript : Bytes) (body : Bytes)
 deriving DecidableEq, Repr
 
 /-- `HandshakeContext`.  Not represented: `read_epoch` — the code only ever increments it (on
@@ -293,9 +294,9 @@ def handleClientKeyExchange (C : Crypto) (L : Loc) (e : Ep) (body : Bytes) : R :
                               evs := .keys L.pub pk (c0.clientRandom.getD []) (c0.serverRandom.getD []) c0.ems c0.transcript k :: e.evs }
 
 /-- publishing `Connected`: state, then the two atomics, then `local_secret = None` -/
-def connect (e : Ep) (k : Keys) (verifiedOver : Bytes) : Ep :=
+def connect (e : Ep) (k : Keys) (verifiedOver : Bytes) (body : Bytes) : Ep :=
   { e with conn := .connected, connKeys := some k, connSrtp := e.ctx.srtp,
-           evs := .finished k verifiedOver :: e.evs,
+           evs := .finished k verifiedOver body :: e.evs,
            writeEpoch := e.ctx.epoch, writeSeq := e.ctx.seqNum,
            ctx := { e.ctx with localSecret := false } }
 
@@ -327,7 +328,7 @@ def handleFinishedServer (C : Crypto) (e : Ep) (body raw : Bytes) : R :=
   else
     let fc := serverFinalFlight C e.ctx raw
     match e.ctx.keys with
-    | some k => ok (connect { withCtx e fc.2 with evs := .sentFinished k (e.ctx.transcript ++ raw) :: e.evs } k e.ctx.transcript) (sends fc.1)
+    | some k => ok (connect { withCtx e fc.2 with evs := .sentFinished k (e.ctx.transcript ++ raw) (C.vd k.ms false (e.ctx.transcript ++ raw)) :: e.evs } k e.ctx.transcript body) (sends fc.1)
     | none => ⟨{ withCtx e fc.2 with conn := .failed }, sends fc.1, true⟩
 
 /-- `handle_finished`, client branch -/
@@ -336,7 +337,7 @@ def handleFinishedClient (C : Crypto) (e : Ep) (body : Bytes) : R :=
   | none => ok e
   | some k =>
     if body ≠ C.vd k.ms false e.ctx.transcript then failed e
-    else ok (connect e k e.ctx.transcript)
+    else ok (connect e k e.ctx.transcript body)
 
 /-- `handle_hello_verify_request` (no role test in the code) -/
 def handleHvr (C : Crypto) (L : Loc) (e : Ep) (body : Bytes) : R :=
@@ -345,6 +346,9 @@ def handleHvr (C : Crypto) (L : Loc) (e : Ep) (body : Bytes) : R :=
     let raw := rawMsg dtlsHtClientHello c0.msgSeq L.ch2Body
     let c1 := { c0 with transcript := raw }
     let (r, c2) := hsRecord c1 raw false
+    if c2.msgSeq ≥ 65535 then      -- `message_seq.checked_add(1)` fails after the ClientHello went out: `Err`
+      ⟨{ e with ctx := { c2 with lastFlight := some [r] } }, sends [r], true⟩
+    else
     ok { e with ctx := { c2 with lastFlight := some [r], msgSeq := c2.msgSeq + 1, postHvr := true } } (sends [r])
   else ok e
 
@@ -393,7 +397,7 @@ def handleServerHelloDone (C : Crypto) (L : Loc) (e : Ep) : R :=
       let fc := clientFinalFlight C kc.2 k
       -- the flight kept for retransmission starts with the ClientKeyExchange
       ok { withCtx e { fc.2 with lastFlight := some (kc.1 :: fc.1) } with
-             evs := .sentFinished k kc.2.transcript ::
+             evs := .sentFinished k kc.2.transcript (C.vd k.ms true kc.2.transcript) ::
                     .keys L.pub (kc.2.peerPub.getD []) (kc.2.clientRandom.getD []) (kc.2.serverRandom.getD []) kc.2.ems kc.2.transcript k :: e.evs }
          (sends (kc.1 :: fc.1))
 
@@ -420,13 +424,19 @@ def inTranscript (typ : Nat) : Bool :=
 def clearPostHvr (e : Ep) : Ep :=
   if e.ctx.postHvr then { e with ctx := { e.ctx with postHvr := false } } else e
 
-/-- fragment buffer: reset on another message or on offset 0; then the fragment is appended only
-if it continues the buffer (`fragment_offset == buffer.len()`), otherwise it is ignored (`none`) -/
+/-- fragment buffer: reset on another message or on offset 0; then a fragment that starts inside or at
+the end of the buffer (`fragment_offset ≤ buffer.len()`) and reaches beyond it contributes the bytes
+beyond it (fragment ranges may overlap); any other fragment is ignored -/
 def resetFrag (c : Ctx) (m : HsMsg) : Ctx :=
   if c.incompleteSeq ≠ m.msgSeq || m.fragOff = 0
   then { c with incomplete := [], incompleteSeq := m.msgSeq } else c
 
-def appendFrag (c : Ctx) (m : HsMsg) : Ctx := { c with incomplete := c.incomplete ++ m.body }
+def appendFrag (c : Ctx) (m : HsMsg) : Ctx :=
+  { c with incomplete := c.incomplete ++ m.body.drop (c.incomplete.length - m.fragOff) }
+
+/-- the fragment neither leaves a gap after the buffer nor lies wholly inside it -/
+def fragUseful (c : Ctx) (m : HsMsg) : Bool :=
+  decide (m.fragOff ≤ c.incomplete.length) && decide (c.incomplete.length < m.fragOff + m.body.length)
 
 /-- `recv_message_seq += 1` and the transcript rule -/
 def noteMsg (c : Ctx) (typ : Nat) (raw : Bytes) : Ctx :=
@@ -440,18 +450,21 @@ def acceptMsg (C : Crypto) (L : Loc) (e : Ep) (m : HsMsg) : R :=
   let e0 := clearPostHvr e
   if m.totalLen ≠ m.body.length then
     let c1 := resetFrag e0.ctx m
-    if m.fragOff ≠ c1.incomplete.length then ok (withCtx e0 c1)
+    if !fragUseful c1 m then ok (withCtx e0 c1)
     else
       let c2 := appendFrag c1 m
       if c2.incomplete.length < m.totalLen then ok (withCtx e0 c2)
+      else if c2.recvSeq ≥ 65535 then ⟨withCtx e0 (takeBuffer c2), [], true⟩   -- `checked_add(1)` fails: `Err`
       else
         let body := c2.incomplete
         let raw := encodeHs m.typ m.msgSeq 0 m.totalLen body
         handleMsg C L (withCtx e0 (noteMsg (takeBuffer c2) m.typ raw)) m.typ body raw
+  else if e0.ctx.recvSeq ≥ 65535 then ⟨e0, [], true⟩
   else
     handleMsg C L (withCtx e0 (noteMsg e0.ctx m.typ (rawOf m))) m.typ m.body (rawOf m)
 
-/-- post-HVR resynchronisation of the receive counter -/
+/-- post-HVR resynchronisation of the receive counter (only the ServerHello, which opens the server's
+post-cookie flight, may move it) -/
 def resync (e : Ep) (m : HsMsg) : Ep :=
   { e with ctx := { e.ctx with recvSeq := m.msgSeq, postHvr := false } }
 
@@ -464,7 +477,7 @@ def gate (C : Crypto) (L : Loc) (e : Ep) (auth : Bool) (m : HsMsg) : R :=
 opened under the negotiated keys) -/
 def procMsg (C : Crypto) (L : Loc) (e : Ep) (auth : Bool) (m : HsMsg) : R :=
   if m.msgSeq < e.ctx.recvSeq then
-    if e.ctx.postHvr && e.isClient then gate C L (resync e m) auth m
+    if e.ctx.postHvr && e.isClient && m.typ = dtlsHtServerHello then gate C L (resync e m) auth m
     else if m.typ = dtlsHtClientHello && !e.isClient then handleMsg C L e m.typ m.body (rawOf m)
     else if m.typ = dtlsHtFinished && !e.isClient && auth then
       (match e.ctx.lastFlight with        -- the client repeats its Finished: our final flight was lost
@@ -472,7 +485,7 @@ def procMsg (C : Crypto) (L : Loc) (e : Ep) (auth : Bool) (m : HsMsg) : R :=
        | none => ok e)
     else ok e
   else if m.msgSeq > e.ctx.recvSeq then
-    if e.ctx.postHvr && e.isClient then gate C L (resync e m) auth m
+    if e.ctx.postHvr && e.isClient && m.typ = dtlsHtServerHello then gate C L (resync e m) auth m
     else ok e
   else gate C L e auth m
 
